@@ -161,7 +161,7 @@ pub fn run(ctx: &Ctx) -> Outcome {
     out.shards = cfg.shards;
     out.absorb(tape_search(ctx, "main", &cfg, check, describe));
     if !out.failed() && ctx.tier == Tier::Thorough {
-        let fr = libfuzzer(ctx, "sim_state", 400_000, 1600, 8);
+        let fr = libfuzzer(ctx, "sim_state", 160_000, 1600, 8);
         out.extra.insert("libfuzzer_sim_state_runs".into(), json!(fr.runs));
         if let Some(s) = fr.skipped {
             out.extra.insert("libfuzzer_skipped".into(), json!(s));
